@@ -653,6 +653,9 @@ func (c *FnCtx) convertTo(st *State, v *Term, from, to types.Type) *Term {
 	if to == nil {
 		return v
 	}
+	if from != nil && isUntypedNil(from) {
+		return c.zero(to)
+	}
 	if _, ok := types.Unalias(to).Underlying().(*types.Interface); ok {
 		if _, isTP := types.Unalias(to).(*types.TypeParam); !isTP {
 			return c.toInterface(st, v, from).withGo(to)
